@@ -163,6 +163,10 @@ func loadWorld(repo string, verifContracts string) (*World, error) {
 		w.ContractSrc[dir] = path
 		for _, c := range cs {
 			key := dir + ":" + c.Name
+			if c.Regexp {
+				w.Contracts = append(w.Contracts, c)
+				continue
+			}
 			fi := w.Funcs[key]
 			if fi == nil {
 				w.Notes = append(w.Notes, fmt.Sprintf("contract for %s has no function in the working tree", key))
